@@ -156,7 +156,7 @@ type c07Pass struct {
 var allPlacements = [][2]int{{0, 0}, {0, 1}, {1, 0}, {1, 1}, {2, 0}, {2, 1}}
 
 func c07Passes(tier string) []c07Pass {
-	q := c07Cfg{leaves: []string{"Pc", "Ps", "Tl", "T22", "T22c"}, conts: []string{"blockquote"}, lists: []string{"ul"}}
+	q := c07Cfg{leaves: []string{"Pc", "Ps", "Pb", "Tl", "T22c"}, conts: []string{"blockquote"}, lists: []string{"ul"}}
 	q2 := c07Cfg{leaves: []string{"Pc", "Ps", "IMG"}, conts: []string{"div"}, lists: []string{"ol"}}
 	if tier != "thorough" {
 		return []c07Pass{
@@ -372,7 +372,7 @@ func init() {
 	eng.Register(&eng.Prop{
 		ID:        "C07",
 		DesignRef: "§5 C07",
-		Rule: "all block forests (sequences of trees) over list(+li items)/blockquote|div/pre containers, enumerated completely per pass; quick passes: {ul,blockquote,pre}x{Pc,Ps,bare text,2x2 data table, data table with comment-only/hidden-only/empty cells and a one-cell row}: depth 1 with <= 3 leaves x 6 placements, depth 3 with <= 2 leaves x 3 placements, depth 2 with 3 leaves x 1 placement; {ol,div,pre}x{Pc,Ps,IMG} depth 2, <= 2 leaves; " +
+		Rule: "all block forests (sequences of trees) over list(+li items)/blockquote|div/pre containers, enumerated completely per pass; quick passes: {ul,blockquote,pre}x{Pc,Ps,link-only paragraph,bare text, data table with comment-only/hidden-only/empty cells and a one-cell row}: depth 1 with <= 3 leaves x 6 placements, depth 3 with <= 2 leaves x 3 placements, depth 2 with 3 leaves x 1 placement; {ol,div,pre}x{Pc,Ps,IMG} depth 2, <= 2 leaves; " +
 			"thorough passes: {ul,ol,blockquote,div,pre}x5 leaf kinds: depth 3 <= 2 leaves x 6 placements, depth 2 with 3 leaves, depth 1 with <= 4 leaves; {ul,blockquote,pre}x8 leaf kinds depth 2 <= 3 leaves. A placement = (0..2 content paragraphs before, 0..1 after). " +
 			"Oracle: every retained word has the same ul/ol/li/blockquote/pre ancestor chain in source and output; adjacent retained words share the same number of nestable ancestors (items stay in their list); a retained data table keeps all cell words and its row/cell shape. " +
 			"Non-trivial = a chain of depth >= 2 exists among retained words and the document is only partially retained.",
